@@ -32,5 +32,17 @@ def purge_cache_of_invalid_values {S N I : Type} (stack : List N) (inval : List 
   if (!stack.isEmpty) then s else
   reset (inval.foldl deleteOne s)
 
-def translated : List (String × Bool) := [("checkForCycle", true), ("variable_get_formula", true), ("holder_get_array", true), ("holder_set_to_disk", true), ("purge_cache_of_invalid_values", true)]
+/-- `InMemoryStorage.get` (openfisca_core/data_storage/in_memory_storage.py): the key under which the dictionary is touched — the re-bindings of `period` in order; `norm` = `periods.period`, `eternity` = the ETERNITY period, `eternal` = `self.is_eternal` -/
+def memory_storage_key_get {K : Type} (norm : K → K) (eternity : K) (eternal : Bool) (p : K) : K :=
+  (norm (if eternal then (norm eternity) else p))
+
+/-- `InMemoryStorage.put` (openfisca_core/data_storage/in_memory_storage.py): the key under which the dictionary is touched — the re-bindings of `period` in order; `norm` = `periods.period`, `eternity` = the ETERNITY period, `eternal` = `self.is_eternal` -/
+def memory_storage_key_put {K : Type} (norm : K → K) (eternity : K) (eternal : Bool) (p : K) : K :=
+  (norm (if eternal then (norm eternity) else p))
+
+/-- `InMemoryStorage.delete` (openfisca_core/data_storage/in_memory_storage.py): the key under which the dictionary is touched — the re-bindings of `period` in order; `norm` = `periods.period`, `eternity` = the ETERNITY period, `eternal` = `self.is_eternal` -/
+def memory_storage_key_delete {K : Type} (norm : K → K) (eternity : K) (eternal : Bool) (p : K) : K :=
+  (norm (if eternal then (norm eternity) else p))
+
+def translated : List (String × Bool) := [("checkForCycle", true), ("variable_get_formula", true), ("holder_get_array", true), ("holder_set_to_disk", true), ("purge_cache_of_invalid_values", true), ("memory_storage_key_get", true), ("memory_storage_key_put", true), ("memory_storage_key_delete", true)]
 end OFCore.Generated.Engine
